@@ -69,8 +69,8 @@ type c01Ptr struct {
 	Canonical bool // accepted by the strict spec grammar below
 }
 
-var c01StrictRE = regexp.MustCompile(`\Aversion https://git-lfs\.github\.com/spec/v1\n((?:ext-[0-9]-[A-Za-z0-9_]+ sha256:[0-9a-f]{64}\n)*)oid sha256:([0-9a-f]{64})\nsize ([1-9][0-9]*)\n\z`)
-var c01ExtRE = regexp.MustCompile(`ext-([0-9])-([A-Za-z0-9_]+) sha256:([0-9a-f]{64})\n`)
+var c01StrictRE = regexp.MustCompile(`\Aversion https://git-lfs\.github\.com/spec/v1\n((?:ext-[0-9]-[A-Za-z0-9_][A-Za-z0-9_.-]* sha256:[0-9a-f]{64}\n)*)oid sha256:([0-9a-f]{64})\nsize ([1-9][0-9]*)\n\z`)
+var c01ExtRE = regexp.MustCompile(`ext-([0-9])-([A-Za-z0-9_][A-Za-z0-9_.-]*) sha256:([0-9a-f]{64})\n`)
 
 // c01ParsePointer reads pointer text: first by an independent strict grammar (docs/spec.md); text that the strict
 // grammar rejects but git-lfs's own decoder accepts (e.g. trailing blank line) is still a pointer for the purposes
@@ -318,9 +318,37 @@ func c01BasePointerText(i int) string {
 		return fmt.Sprintf("version %s\noid sha256:%s\nsize 9223372036854775807\n", c01Version, oids[2])
 	case 3:
 		return fmt.Sprintf("version %s\next-0-a sha256:%s\noid sha256:%s\nsize 10\n", c01Version, eo(0), oids[0])
+	case 5:
+		// extension names with '-' and '.': docs/spec.md allows both in keys, and git-lfs writes such pointers itself when an
+		// extension lfs.extension.my-filter.* is configured
+		return fmt.Sprintf("version %s\next-0-my-filter sha256:%s\next-2-zip.v2 sha256:%s\noid sha256:%s\nsize 4242\n", c01Version, eo(2), eo(7), oids[0])
 	default:
 		return fmt.Sprintf("version %s\next-1-foo_bar1 sha256:%s\next-5-b sha256:%s\noid sha256:%s\nsize 999\n", c01Version, eo(1), eo(5), oids[0])
 	}
+}
+
+// c01StrictCanonical: the text is a canonical pointer by the independent strict grammar alone (docs/spec.md: version line, ext lines
+// with strictly ascending priorities, oid, size), whatever git-lfs's own decoder says about it.
+func c01StrictCanonical(b []byte) bool {
+	if len(b) == 0 || len(b) >= 1024 {
+		return false
+	}
+	m := c01StrictRE.FindSubmatch(b)
+	if m == nil {
+		return false
+	}
+	if _, err := strconv.ParseInt(string(m[3]), 10, 64); err != nil {
+		return false
+	}
+	last := -1
+	for _, e := range c01ExtRE.FindAllSubmatch(m[1], -1) {
+		pr, _ := strconv.Atoi(string(e[1]))
+		if pr <= last {
+			return false
+		}
+		last = pr
+	}
+	return true
 }
 
 func c01WriteInputs(dir string, ins []c01Input) []c01Input {
@@ -1147,7 +1175,7 @@ func c01SizeBucket(n int) string {
 // c01Class: minimal class of a case for fingerprints — derived from the case only, never from the observation.
 // c01IsPointerText (case classification only): accepted by git-lfs's decoder AND structurally a pointer, or empty
 func c01IsPointerText(b []byte) bool {
-	return len(b) < 1024 && (len(b) == 0 || (c01ImplParses(b) && c08Lenient(b)))
+	return len(b) < 1024 && (len(b) == 0 || c01StrictCanonical(b) || (c01ImplParses(b) && c08Lenient(b)))
 }
 
 func c01Class(in c01Input, wtRel string, ch c01Chunking, ext string) string {
